@@ -343,6 +343,12 @@ func Child(c *run.Ctx, name string) {
 					c.Undecided("oracle: unsupported SQL")
 				case a.Err == nil && len(b.Execs) == 0:
 					c.Cover("not-judged", "in-process plan rejected before SQL: "+clip(b.Err.Error(), 80), 1)
+				if f := os.Getenv("C09_DEBUG"); f != "" {
+					if fh, err := os.OpenFile(f, os.O_APPEND|os.O_CREATE|os.O_WRONLY, 0644); err == nil {
+						fmt.Fprintf(fh, "rejected: %s :: %v\n", reqGo.QueryString(), b.Err)
+						fh.Close()
+					}
+				}
 				default:
 					c.Violation("cross/one-engine-fails/"+reqSQL.SigShape(), fmt.Sprintf("pipeline %s: SQL path error=%v, in-process path (%s) error=%v", reqSQL.QueryString(), a.Err, reqGo.QueryString(), b.Err),
 						map[string]any{"case_index": gi, "monitor": "cross-engine", "sql_request": reqSQL, "inprocess_request": reqGo, "db": db})
